@@ -109,6 +109,18 @@ def run(chk, binary):
         ks = [sess, mover, rng.choice([".", ".", "2.", "."])] + rng.choice([[], ["."], ["x"], ["j", "."], ["u"]])
         reqs.append({"op": "keys", "text": t, "cursor": 0, "keys": ks, "keep_mode": rng.random() < 0.3})
         meta.append((t, ks, 0))
+    # ... and in one key string with a character search before and its repeat under an operator behind: f1 ix<esc> . d;
+    for t, ks in [("1ab1", ["f1ix<esc>.d;"]), ("1ab1\nzz\n", ["f1ix<esc>.d;"]), ("a.b.c.\nx\n", ["f.ay<esc>.d;"]), ("1ab1", ["f1ix<esc>.y;"])]:
+        reqs.append({"op": "keys", "text": t, "cursor": 0, "keys": ks, "keep_mode": False})
+        meta.append((t, ks, 0))
+    for _ in range(600 if thorough else 120):
+        t = rng.choice(["1ab1", "1ab1\nzz\n", "a.b.c.\nx\n", "x1y1z1\n\n1\n", "é1ü1\n1\n"])
+        ch = rng.choice(["1", "1", ".", "b"])
+        sess = rng.choice(["ix<esc>", "ay<esc>", "Afoo<esc>", "i<esc>", "iab<BS><esc>", "sQ<esc>"])
+        tail = rng.choice(["d;", "d,", "y;", ";", ",", "c;Z<esc>", "d;.", "x", "D"])
+        ks = [rng.choice(["f", "t", "F"]) + ch + sess + rng.choice([".", ".", "2."]) + tail]
+        reqs.append({"op": "keys", "text": t, "cursor": 0, "keys": ks, "keep_mode": False})
+        meta.append((t, ks, 0))
     # exhaustive small scope: depth-3 histories over a compact alphabet on seed buffers (thorough only)
     if thorough:
         alpha = ["x", "dw", "dd", "J", "p", "u", "o<esc>", "ix<esc>", "A<BS><esc>", "vld", "Vd", "j", "$", "w", "G", ":s/a/bb/<CR>", "rZ", "~", "gUw", "."]
